@@ -1,5 +1,6 @@
 """C02 - Process ==, hash() and is_running() follow the process, not the PID."""
 from .common import *  # noqa: F401,F403
+from .common import reused_set_name
 from .common import Contract, Registry, LoopSpec, BASE_ENV, INIT, LINUX_PY
 from .frontproc import make_process, process_ctor_contract, observe
 from .procenv import ProcEnv, linux_process, stat_record, parsed_stat, h_intval
@@ -131,9 +132,9 @@ def h_same(it):
 
 def setup_isr(it, cfg):
     o = make_process(it)
-    it.env_over["__init__._pids_reused"] = SymSet("Int", it.fresh("pids_reused", ("Array", "Int", "Bool")))
+    it.env_over["__init__." + reused_set_name()] = SymSet("Int", it.fresh("pids_reused", ("Array", "Int", "Bool")))
     it.ctx.ghost["last_obj_owner"] = None
-    return {"args": {"self": o}, "spec": {"reused_set": it.env_over["__init__._pids_reused"]}}
+    return {"args": {"self": o}, "spec": {"reused_set": it.env_over["__init__." + reused_set_name()]}}
 
 
 REGISTRY.add(Contract(
